@@ -42,6 +42,12 @@ CHECKS = {
  "C13": ("deterministic simulation: the real Concurrent(Stream)TestSuite.run on a simulated main thread with Thread/Semaphore/Queue rebound to simulator objects; seeded schedules + fault plans (result raises, make_tests/wrap_result raise, KeyboardInterrupt inside get/join/start, crashing runners); deadlock detector and step cap",
          "seeded exploration: each sub-suite run once on its own thread, all joined before return, every event delivered once in worker order with route code and timestamp, broken-runner reported, abort propagates and running workers are told to stop, no deadlock",
          "workers honour shouldStop; route codes are strings; 'told to stop' is read when run() unwinds; sampling, not proof", "3/C13"),
+ "C14": ("deterministic simulation: AsynchronousDeferredRunTest over a virtual-time Twisted reactor (real ReactorBase scheduling, seconds/doIteration replaced); scripted Deferred-returning stages; timeouts and delays from a tie-prone grid; SIGINT/reactor.stop injected at seeded virtual instants; timeline model as oracle",
+         "seeded exploration: one outcome per run, stage n+1 starts no earlier than stage n completed, success iff the model timeline is clean, strict timeout/interrupt => error (+stop), reactor clean and log observers restored after every run",
+         "tie runs are checked against global invariants only; real reactor not covered; sampling, not proof", "3/C14"),
+ "C15": ("deterministic simulation: histories of Spinner.run calls over one virtual-time reactor; pre-installed signal handlers, SIGINT/SIGTERM/stop events at seeded instants incl. ties; result-set model as oracle",
+         "seeded exploration: each call returns its own result (value / same exception / TimeoutError / NoResultError, a set at ties), guards raise, reactor clean, leftovers reported as junk and nothing else, reactor.stop and the three signal handlers restored",
+         "real global reactor not covered (wall-clock timing does not replay); a SIGINT is a stop request only with default_int_handler pre-installed; sampling, not proof", "3/C15"),
 }
 
 NOT_APPLICABLE = [
